@@ -256,6 +256,13 @@ Theorem C14_log_slot_spec_iff : forall b m nb x s, 1 < b -> (0 < m)%nat ->
 Proof. exact log_slot_spec_iff. Qed.
 Print Assumptions C14_log_slot_spec_iff.
 
+(* the goal window of C14_check_ok_sound without the Check-side rounding function: every
+   admissible goal is the floor of a number within relative 2^-50 of total*q *)
+Theorem C14_goal_window_close : forall total q g, goal_window total q g ->
+  exists t', Qabs (t' - QofN total * q) <= eps_goal * Qabs (QofN total * q) /\ g = Qfloor t'.
+Proof. exact goal_window_close. Qed.
+Print Assumptions C14_goal_window_close.
+
 (* Non-vacuity: LinearHist [0,4) in 4 bins; Add(1.5) -> bin 1; Counts; Quantile(1) -> BinToValue(2) = 2;
    BinToValue(0.5) = 0.5.  Accepted with code 0, and the line parses to the end. *)
 Example C14_check_ok_example :
